@@ -12,8 +12,8 @@ READY = True
 LEVEL = "exploration"
 WORKERS = {"quick": 8, "thorough": 16}
 BUDGET = {"quick": 60, "thorough": 420}
-MIN_NONTRIVIAL = {"quick": 2000, "thorough": 30000}
-REQUIRED_HOOKS = ["evaluate:I", "evaluate:C", "resolve", "macro-scope", "declaration"]
+MIN_NONTRIVIAL = {"quick": 2000, "thorough": 12000}
+REQUIRED_HOOKS = ["evaluate:I", "evaluate:C", "resolve", "resolve-reuse", "macro-scope", "declaration"]
 RULE = (
     "Configurations over the alphabet {a,b,c}: every assignment {unbound, scalar, nested map} to the nine dotted names L+prefix (L in {'', p, p.q}; prefix in "
     "{a, a.b, a.b.c}), x package in {none, p, p.q}, x every reference a, a.b, a.b.c (enumerated completely in the thorough tier, sampled in the quick tier). Every scalar "
@@ -125,6 +125,55 @@ def check_config(acc, assign, package, ref):
             )
 
 
+def check_reuse_config(acc, rnd, package, ref, steps=4):
+    """One program per runner for one (package, reference), evaluated against a sequence of binding sets in which the level and the
+    length of the winning binding change from call to call: every call must resolve against the bindings of THAT call."""
+    c = core.celpy()
+    src = ".".join(ref)
+    seq = []
+    for _ in range(steps):
+        assign = tuple(rnd.choice(KINDS) if rnd.random() < 0.3 else "-" for _ in NAMES)
+        bindings = {name: make_value(name, kind, 1000 * (i + 1) + 7 * len(seq)) for i, (name, kind) in enumerate(zip(NAMES, assign)) if kind != "-"}
+        if bindings:
+            seq.append((assign, bindings))
+    if len(seq) < 2:
+        return
+    for r in "IC":
+        try:
+            env = c.Environment(package=package or None, runner_class=core.runner_class(r))
+            prog = env.program(env.compile(src))
+        except Exception:
+            return
+        for step, (assign, bindings) in enumerate(seq):
+            exp, info = model_resolve(bindings, package, ref)
+            if exp[0] == "U":
+                continue
+            benv = {".".join(n): MV.to_cel(v) for n, v in bindings.items()}
+            try:
+                out = ["V", core.canon(prog.evaluate(benv))]
+            except c.CELEvalError:
+                out = ["E"]
+            except Exception as ex:
+                out = ["X", "evaluate", type(ex).__name__, core._left_from(ex), core._msg(ex)]
+            acc.hook("evaluate:" + r)
+            acc.hook("resolve-reuse")
+            acc.evaluations += 1
+            ok = agrees(out, exp)
+            acc.cell("resolve-reuse", r, "step%d" % min(step, 3), "level%d" % info["level"], exp[0], "ok" if ok else "differ")
+            if step:
+                acc.nt(["reuse", [list(a) for a, _ in seq[: step + 1]], package, src, r])
+            if ok:
+                continue
+            fresh = core.api_eval(r, src, benv, package=package or None)
+            if agrees(fresh, exp):
+                acc.violation(
+                    f"{r} resolve program-reuse outcome-depends-on-an-earlier-evaluation pkg-depth={package.count('.') + 1 if package else 0} obs={diag.oclass(out).split('@')[0]} exp={'E' if exp[0] == 'E' else 'V:' + exp[1][0]}",
+                    f"{'interpreted' if r == 'I' else 'compiled'}: evaluation #{step + 1} of one program {src!r} (package {package!r}) with bindings { {'.'.join(n): v for n, v in bindings.items()} !r:.160} gave {core.jkey(out)[:80]}, expected {str(exp)[:80]}; a fresh program agrees with the expectation",
+                    {"kind": "resolve-reuse", "assigns": [list(a) for a, _ in seq[: step + 1]], "package": package, "ref": list(ref), "runner": r},
+                )
+            break  # after a wrong step (stale, or a listed finding seen by check_config) later steps say nothing new
+
+
 # ---------------------------------------------------------------- declarations
 def declaration_cases(acc, ctx):
     ct = core.celpy().celtypes
@@ -226,10 +275,11 @@ def use(rnd, visible):
     return Node("lit", "int", ("int", rnd.randint(0, 9)))
 
 
-def macro_cases(acc, ctx, n):
+def macro_cases(acc, ctx, n, keep=0.0):
+    """keep: fraction of the worker's budget that must be left for the phases after this one"""
     rnd = ctx.rnd
     for j in range(n):
-        if ctx.expired():
+        if ctx.expired() or ctx.time_left() < keep * ctx.budget_s:
             break
         names = rnd.choice([["x"], ["x", "y"], ["x", "y", "i"], ["x", "x", "y"]])
         outer = {}
@@ -286,7 +336,7 @@ def run(ctx):
     rnd = ctx.rnd
     core.celpy()
     declaration_cases(acc, ctx)
-    macro_cases(acc, ctx, ctx.scale(2500, 16000))
+    macro_cases(acc, ctx, ctx.scale(2500, 16000), keep=0.75)
     refs = [("a",), ("a", "b"), ("a", "b", "c")]
     packages = ["", "p", "p.q"]
     if ctx.thorough:
@@ -296,7 +346,7 @@ def run(ctx):
             i += 1
             if not ctx.mine(i):
                 continue
-            if ctx.time_left() < 0.1 * ctx.budget_s:
+            if ctx.time_left() < 0.25 * ctx.budget_s:
                 done = False
                 break
             for package in packages:
@@ -327,6 +377,10 @@ def run(ctx):
                             for ref in refs:
                                 check_config(acc, tuple(assign), package, ref)
         acc.exhaustive.append("all configurations with at most two bound names x 3 packages x 3 references")
+    for _ in range(ctx.scale(1600, 64000)):
+        if ctx.expired():
+            break
+        check_reuse_config(acc, rnd, rnd.choice(packages), rnd.choice(refs))
     if ctx.thorough:
         macro_cases(acc, ctx, ctx.scale(0, 48000))
     acc.sample({"bindings": {"a": "scalar#1000", "a.b": "map#2000"}, "package": "p", "reference": "a.b.c"})
@@ -337,6 +391,24 @@ def replay(case):
     acc = core.Acc()
     if case["kind"] == "resolve":
         check_config(acc, tuple(case["assign"]), case["package"], tuple(case["ref"]))
+    elif case["kind"] == "resolve-reuse":
+        c = core.celpy()
+        package, ref, r = case["package"], tuple(case["ref"]), case["runner"]
+        env = c.Environment(package=package or None, runner_class=core.runner_class(r))
+        prog = env.program(env.compile(".".join(ref)))
+        lines, ok = [], True
+        for k, assign in enumerate(case["assigns"]):
+            bindings = {name: make_value(name, kind, 1000 * (i + 1) + 7 * k) for i, (name, kind) in enumerate(zip(NAMES, assign)) if kind != "-"}
+            exp, _ = model_resolve(bindings, package, ref)
+            benv = {".".join(n): MV.to_cel(v) for n, v in bindings.items()}
+            try:
+                out = ["V", core.canon(prog.evaluate(benv))]
+            except c.CELEvalError:
+                out = ["E"]
+            good = exp[0] == "U" or agrees(out, exp)
+            lines.append(f"step {k + 1}: bindings {sorted(benv)} -> {core.jkey(out)[:80]} expected {str(exp)[:80]} {'ok' if good else 'DIFFERS'}")
+            ok = ok and (good or k < len(case["assigns"]) - 1)
+        return ok, "\n".join(lines)
     elif case["kind"] == "macro":
         out = core.api_eval(case["runner"], case["src"], MV.cel_env(MV.dec_env(case["outer"])))
         exp = case["expected"]
